@@ -106,6 +106,11 @@ def job(cfg):
                 kind, n, na, nb, mode, len(grid["free"]), grid["entries"]))
         Wa, Wb, Phi = gridmc.lab_walkers(tc, grid, mode == "r")
         P = grid["P"]
+        if kind == "multislater":
+            dmin = gridmc.multislater_blocks_ok(tc, Wa, Wb, mode)
+            if dmin < 1e-3:
+                res.cap("multislater %s mode %s: a reference block is singular on the grid (min|det|=%.1e); configuration not decided" % (cfg["variant"], mode, dmin))
+                continue
         spin_dep = (kind in SPIN_DEP_KINDS and mode == "u") or (mode == "r" and kind in trials.CLOSED_ONLY)
         hams = gridmc.ham_alphabet(n, seed, spin_dep, thorough and not lite)
         # parameter sets: first and dense see the whole Hamiltonian alphabet, the unit parameters the dense one
